@@ -40,6 +40,7 @@ class Loop:
 class Guard:
     def __init__(self, test, positive, rf, node=None):
         self.early = False          # pushed because the other side left the block
+        self.exit = set()           # ... and how it left ('raise', 'return', 'continue', 'break')
         self.test = test            # ast expr (or None for except)
         self.positive = positive
         self.rf = rf
@@ -71,6 +72,24 @@ def terminates(stmts):
     if isinstance(last, ast.If):
         return terminates(last.body) and terminates(last.orelse)
     return False
+
+
+def exit_kinds(stmts):
+    """how a terminating block leaves: subset of {'return','raise','break','continue'}"""
+    if not stmts:
+        return set()
+    last = stmts[-1]
+    if isinstance(last, ast.Return):
+        return {'return'}
+    if isinstance(last, ast.Raise):
+        return {'raise'}
+    if isinstance(last, ast.Break):
+        return {'break'}
+    if isinstance(last, ast.Continue):
+        return {'continue'}
+    if isinstance(last, ast.If):
+        return exit_kinds(last.body) | exit_kinds(last.orelse)
+    return set()
 
 
 class Flow:
@@ -135,6 +154,7 @@ class Flow:
                     test_rf = self._if_rf
                     g = Guard(s.test, t == 'orelse', test_rf, s)
                     g.early = True
+                    g.exit = exit_kinds(s.body if t == 'body' else s.orelse)
                     self.guards.append(g)
                     self.assume(test_rf, t == 'orelse')
                     pushed += 1
